@@ -72,7 +72,7 @@ theorem C14_outcome_table (w : Watcher) (h : String) :
     only runs the two hooks — no `kill()` is issued. -/
 theorem C14_signal_vetoed (u p sig : Nat) (s : State) (hp : (getW u s).1.pids.contains p = true)
     (hr : (callHook u "before_signal" s).1 = false) (hk : sig ≠ 9) :
-    sendSignal u p sig s = (true, (callHook u "after_signal" (callHook u "before_signal" s).2).2) := by
+    sendSignal u p sig s = (.ok, (callHook u "after_signal" (callHook u "before_signal" s).2).2) := by
   unfold sendSignal
   simp only [bind]
   erw [if_pos hp]
@@ -84,10 +84,12 @@ theorem C14_signal_vetoed (u p sig : Nat) (s : State) (hp : (getW u s).1.pids.co
   erw [if_pos rfl]
   rfl
 
-/-- **SIGKILL is always sent**, whatever `before_signal` says: the `kill()` call follows the hook -/
+/-- **SIGKILL is always sent**, whatever `before_signal` says: the `kill()` call follows the hook (the
+    `after_signal` hook runs only when that call did not raise — the worker was there and the daemon was
+    permitted to signal it) -/
 theorem C14_sigkill_always_sent (u p : Nat) (s : State) (hp : (getW u s).1.pids.contains p = true) :
     (sendSignal u p 9 s).2 =
-      (if (kKill p 9 "" (callHook u "before_signal" s).2).1
+      (if (kKill p 9 "" (callHook u "before_signal" s).2).1 = .ok
        then (callHook u "after_signal" (kKill p 9 "" (callHook u "before_signal" s).2).2).2
        else (kKill p 9 "" (callHook u "before_signal" s).2).2) := by
   unfold sendSignal
@@ -95,16 +97,14 @@ theorem C14_sigkill_always_sent (u p : Nat) (s : State) (hp : (getW u s).1.pids.
   erw [if_pos hp]
   have hcond : ¬ ((decide (9 ≠ 9) && !(callHook u "before_signal" (getW u s).snd).fst) = true) := by simp
   erw [if_neg hcond]
-  cases hk : (kKill p 9 "" (callHook u "before_signal" s).2).1
-  · have h1 : ¬ ((kKill p 9 "" (callHook u "before_signal" (getW u s).snd).snd).fst = true) := by
-      have : (kKill p 9 "" (callHook u "before_signal" (getW u s).snd).snd).fst = false := hk
-      rw [this]; simp
-    erw [if_neg h1]
-    simp only [pure, Bool.false_eq_true, if_false]
-    rfl
-  · have h1 : (kKill p 9 "" (callHook u "before_signal" (getW u s).snd).snd).fst = true := hk
+  by_cases hk : (kKill p 9 "" (callHook u "before_signal" s).2).1 = .ok
+  · have h1 : (kKill p 9 "" (callHook u "before_signal" (getW u s).snd).snd).fst = SigRes.ok := hk
     erw [if_pos h1]
-    simp only [pure, if_true]
+    rw [if_pos hk]
+    rfl
+  · have h1 : ¬ ((kKill p 9 "" (callHook u "before_signal" (getW u s).snd).snd).fst = SigRes.ok) := hk
+    erw [if_neg h1]
+    rw [if_neg hk]
     rfl
 
 /-- **a false `before_start` aborts the start**: for a stopped watcher the start coroutine ends at once
